@@ -157,19 +157,12 @@ mod verif_c19 {
         std::mem::forget(bp);
     }
 
-    // @tier quick
-    // @obligation lint settings of a constructor: any sequence of 2 calls out of allow / warn / deny on either lint: the schema's lint table holds, per lint, the setting of the LAST call that named it, and no entry for a lint that was never named
-    // @bounds 2 calls, 2 lints x 3 settings
-    // @functions RegisteredConstructor::allow, ::warn, ::deny, conversions::lint2lint
-    // @timeout 1200
-    #[kani::proof]
-    #[kani::unwind(5)]
-    fn c19_constructor_lints() {
+    fn lints_body(calls: usize) {
         let mut bp = schema(0);
         let mut want: [Option<sch::LintSetting>; 2] = [None, None];
         let mut r = RegisteredConstructor { blueprint: &mut bp, component_id: 0 };
         let mut i = 0;
-        while i < 2 {
+        while i < calls {
             let unused: bool = kani::any();
             let s: u8 = kani::any();
             kani::assume(s < 3);
@@ -193,8 +186,33 @@ mod verif_c19 {
             }
             _ => panic!("the constructor is no longer a constructor"),
         }
-        kani::cover!(want[0] == Some(sch::LintSetting::Deny) && want[1] == Some(sch::LintSetting::Allow), "deny(unused) + allow(error_fallback)");
+        kani::cover!(want[0] == Some(sch::LintSetting::Deny), "deny(unused)");
+        kani::cover!(want[1] == Some(sch::LintSetting::Allow), "allow(error_fallback)");
         std::mem::forget(bp);
+    }
+
+    // @tier quick
+    // @obligation lint settings of a constructor: one call out of allow / warn / deny on either lint: the schema's lint table holds exactly that setting for that lint (converted by lint2lint) and no entry for the other lint
+    // @bounds 1 call, 2 lints x 3 settings
+    // @functions RegisteredConstructor::allow, ::warn, ::deny, conversions::lint2lint
+    // @timeout 900
+    #[kani::proof]
+    #[kani::unwind(5)]
+    fn c19_constructor_lints() {
+        lints_body(1);
+    }
+
+    // @tier thorough
+    // @exploratory true
+    // @obligation as c19_constructor_lints with two calls: per lint the setting of the LAST call that named it (BTreeMap insertion into a non-empty map is at the edge of what CBMC finishes: exploratory)
+    // @bounds 2 calls, 2 lints x 3 settings
+    // @functions RegisteredConstructor::allow, ::warn, ::deny, conversions::lint2lint
+    // @timeout 2400
+    // @mem 24
+    #[kani::proof]
+    #[kani::unwind(5)]
+    fn c19_constructor_lints_override() {
+        lints_body(2);
     }
 
     // @tier quick
@@ -261,5 +279,115 @@ mod verif_c19 {
         assert!(untouched_constructor(&bp.components[index_of(rot, 0)], 10), "a config/prebuilt modifier changed the constructor registered next to it");
         kani::cover!(want_d == Some(false) && want_c == Some(sch::CloningPolicy::NeverClone) && want_i == Some(true), "required + never-clone + include-if-unused");
         std::mem::forget(bp);
+    }
+
+    // ---------------------------------------------------------------------------------------------
+    // nesting: prefix / domain / nest, with overriding calls (prefix-after-prefix)
+    // ---------------------------------------------------------------------------------------------
+    static mut LINE: u32 = 100;
+    /// `Location::caller()` needs `caller_location`, which Kani does not support: every call gets the
+    /// next line number, so "the location recorded is the one of the call that set the value" is checkable
+    #[track_caller]
+    fn loc_stub() -> sch::Location {
+        unsafe {
+            LINE += 1;
+            sch::Location { line: LINE, column: 7, file: String::new() }
+        }
+    }
+    fn str_is(a: &str, b: &str) -> bool {
+        let (a, b) = (a.as_bytes(), b.as_bytes());
+        if a.len() != b.len() {
+            return false;
+        }
+        let mut i = 0;
+        while i < a.len() {
+            if a[i] != b[i] {
+                return false;
+            }
+            i += 1;
+        }
+        true
+    }
+
+    // @tier quick
+    // @obligation nesting through the real Blueprint::prefix / Blueprint::domain / RoutingModifiers::{prefix, domain, nest}: any sequence of 1-3 prefix(\"/a\"|\"/b\") / domain(\"x.io\"|\"y.io\") calls followed by nest(child): the parent gains exactly one NestedBlueprint component, after the existing ones (which are untouched), holding the child's components intact and in order, the prefix of the LAST prefix call (none if there was none) with that call's location, the domain of the last domain call with that call's location, and the location of the nest call
+    // @bounds parent with 3 components, child with 2, 1-3 modifier calls, two candidate prefixes and domains
+    // @functions Blueprint::prefix, Blueprint::domain, RoutingModifiers::prefix, ::domain, ::nest, ::empty
+    // @timeout 1200
+    #[kani::proof]
+    #[kani::unwind(6)]
+    #[kani::stub(pavex_bp_schema::Location::caller, loc_stub)]
+    fn c19_nesting_prefix_domain() {
+        use crate::blueprint::RoutingModifiers;
+        let mut parent = crate::Blueprint { schema: schema(0) };
+        let child = crate::Blueprint { schema: sch::Blueprint { creation_location: loc(2), components: vec![prebuilt(20), constructor(21)] } };
+        let mut want_p: Option<(&str, u32)> = None;
+        let mut want_d: Option<(&str, u32)> = None;
+        let n: u8 = kani::any();
+        kani::assume(n >= 1 && n <= 3);
+        // the first call goes through the public entry point on Blueprint
+        let first_is_prefix: bool = kani::any();
+        let alt: bool = kani::any();
+        let mut m: RoutingModifiers<'_> = if first_is_prefix {
+            let p = if alt { "/a" } else { "/b" };
+            let r = parent.prefix(p);
+            want_p = Some((p, unsafe { LINE }));
+            r
+        } else {
+            let d = if alt { "x.io" } else { "y.io" };
+            let r = parent.domain(d);
+            want_d = Some((d, unsafe { LINE }));
+            r
+        };
+        let mut i = 1;
+        while i < 3 {
+            if i < n {
+                let is_prefix: bool = kani::any();
+                let alt: bool = kani::any();
+                if is_prefix {
+                    let p = if alt { "/a" } else { "/b" };
+                    m = m.prefix(p);
+                    want_p = Some((p, unsafe { LINE }));
+                } else {
+                    let d = if alt { "x.io" } else { "y.io" };
+                    m = m.domain(d);
+                    want_d = Some((d, unsafe { LINE }));
+                }
+            }
+            i += 1;
+        }
+        m.nest(child);
+        let nest_line = unsafe { LINE };
+        let comps = &parent.schema.components;
+        assert!(comps.len() == 4, "nest() did not add exactly one component");
+        assert!(untouched_constructor(&comps[0], 10) && untouched_config(&comps[1], 11) && untouched_prebuilt(&comps[2], 12), "nesting changed or reordered the components registered before it");
+        match &comps[3] {
+            sch::Component::NestedBlueprint(nb) => {
+                assert!(nb.nested_at.line == nest_line, "the nesting location is not the one of the nest() call");
+                match (&nb.path_prefix, want_p) {
+                    (None, None) => {}
+                    (Some(pp), Some((p, line))) => {
+                        assert!(str_is(&pp.path_prefix, p), "the nested blueprint does not carry the prefix of the last prefix() call");
+                        assert!(pp.registered_at.line == line, "the prefix location is not the one of the last prefix() call");
+                    }
+                    _ => panic!("a prefix appeared from nowhere or was lost"),
+                }
+                match (&nb.domain, want_d) {
+                    (None, None) => {}
+                    (Some(dd), Some((d, line))) => {
+                        assert!(str_is(&dd.domain, d), "the nested blueprint does not carry the domain of the last domain() call");
+                        assert!(dd.registered_at.line == line, "the domain location is not the one of the last domain() call");
+                    }
+                    _ => panic!("a domain guard appeared from nowhere or was lost"),
+                }
+                assert!(nb.blueprint.creation_location.line == 2, "the nested blueprint lost its creation location");
+                assert!(nb.blueprint.components.len() == 2, "the nested blueprint lost or gained components");
+                assert!(untouched_prebuilt(&nb.blueprint.components[0], 20) && untouched_constructor(&nb.blueprint.components[1], 21), "the nested blueprint's components are not intact and in order");
+            }
+            _ => panic!("nest() registered something that is not a nested blueprint"),
+        }
+        kani::cover!(n == 3 && want_p.is_some() && want_d.is_some(), "three calls, prefix and domain both set");
+        kani::cover!(n == 2 && want_d.is_none(), "prefix after prefix");
+        std::mem::forget(parent);
     }
 }
